@@ -7,6 +7,7 @@ cond (prefix): `A col op const` | `O` | `& x y` | `| x y`.
 -/
 import OG.C20.Model
 import OG.C20.Skip
+import OG.C20.SkipIdx
 
 namespace OG.C20
 
@@ -154,6 +155,46 @@ def showIsExist : Option (Option Bool) → String
   | some none => "err exist"
   | some (some b) => toString b
 
+def parseKind : String → Option IdxKind
+  | "bf" => some .bloom | "ft" => some .fullText | "set" => some .set | "mm" => some .minMax
+  | "tc" => some .timeCluster | _ => none
+
+/-- `bf:0,1;ft:1,2;tc:0` — one index per entry, named by its type; `bf:` = empty index list. -/
+def parseRel (s : String) : Option Relation :=
+  if s == "-" then some []
+  else (s.splitOn ";").mapM fun e =>
+    match e.splitOn ":" with
+    | [k, cols] => do
+      let k ← parseKind k
+      let cols ← (if cols == "" then some [] else (cols.splitOn ",").mapM (·.toNat?))
+      some ⟨k, k.stdName, cols⟩
+    | _ => none
+
+/-- `NewSKCondition` of the reader created for `i` fails (`convertToRPNElem` returns an error). -/
+def condFails (c : BCond) (i : SkInfo) : Bool :=
+  let inSchema : Nat → Bool := fun n => i.fields.contains n || (i.kind == .fullText && n == fieldLog)
+  (convElems inSchema (toRPN c)).isNone
+
+/-- the full-text reader tokenises every element of its condition in `ReInit`: a phrase that ends
+inside a multi-byte sequence panics there (the plain reader only when a fragment is asked). -/
+def ftPanics (c : BCond) (i : SkInfo) : Bool :=
+  i.kind == .fullText && (atomsOf c).any fun a =>
+    (i.fields.contains a.1 || a.1 == fieldLog) && (readerLookups contentSplit a.2.v).isNone
+
+/-- `CreateSKFileReaders`, then per reader `ReInit` + `Scan`, as the harness (and the engine) does. -/
+def runRel (wsp : Nat → Bool) (rel : Relation) (allCols : List Nat) (c : BCond) (segs : List Seg) (mm : Nat)
+    (rgs : List (Nat × Nat)) : String :=
+  match skInfos rel c with
+  | none => "err create"
+  | some infos =>
+    if infos.isEmpty then showRanges rgs
+    else if !(infos.all SkInfo.creatable) || infos.any (condFails c) then "err create"
+    else if infos.any (ftPanics c) || infos.any (·.kind == .minMax) then "err panic"
+    else
+      match skipIndexScan wsp posV3 rel allCols c segs mm rgs with
+      | some (some rs) => showRanges rs
+      | _ => "err panic"
+
 def stepSkip : List String → Option String
   | ["skip", rpf, minRows, ans, rgs] => do
     let rpf ← rpf.toNat?
@@ -196,6 +237,7 @@ def stepSkip : List String → Option String
     let p ← hexBytes p
     some (toString (phraseMatch contentSplit c p))
   | "bloom" :: kind :: split :: rpf :: minRows :: rgs :: nIdx :: segs :: cond => do
+    -- one index of type `kind` over the columns 0..nIdx-1; the record has the string columns 0..nIdx
     let rpf ← rpf.toNat?
     let minRows ← minRows.toNat?
     let rgs ← parseRanges rgs
@@ -203,28 +245,21 @@ def stepSkip : List String → Option String
     let segs ← (segs.splitOn "|").mapM parseSeg
     let (c, rest) ← parseBCond cond
     let wsp ← (match split with | "c" => some contentSplit | "e" => some noSplit | _ => none)
+    let k ← parseKind kind
     if !rest.isEmpty || rpf == 0 then none
-    else
-      let (inIdx, mayBe) ← (match kind with
-        | "bf" => some ((fun n => n == 0), bfMayBe wsp posV3 c)
-        | "ft" => some ((fun n => n < nIdx || n == fieldLog), ftMayBe wsp posV3 nIdx (List.range (nIdx + 1)) c)
-        | _ => none : Option ((Nat → Bool) × (Seg → Option (Option Bool))))
-      -- a phrase that ends inside a multi-byte sequence panics in the query tokenizer:
-      -- the full-text reader tokenizes every element in ReInit, the plain one when it is asked
-      let ftPanics := kind == "ft" && (atomsOf c).any fun a => inIdx a.1 && (readerLookups contentSplit a.2.v).isNone
-      if !hasReader inIdx c then some (showRanges rgs)
-      else if ftPanics then some "err panic"
-      else
-        match mayBe [] with
-        | none => some "err create"
-        | some _ =>
-          let rd : Reader := fun j =>
-            match segs[j]? with
-            | some seg => (match mayBe seg with | some (some b) => some b | _ => none)
-            | none => none
-          match skipScan (minMarks rpf minRows) rd rgs with
-          | some rs => some (showRanges rs)
-          | none => some "err panic"
+    else some (runRel wsp [⟨k, k.stdName, List.range nIdx⟩] (List.range (nIdx + 1)) c segs (minMarks rpf minRows) rgs)
+  | "bloomx" :: split :: rpf :: minRows :: rgs :: ncols :: rel :: segs :: cond => do
+    -- any index relation over a record with the string columns 0..ncols-1
+    let rpf ← rpf.toNat?
+    let minRows ← minRows.toNat?
+    let rgs ← parseRanges rgs
+    let ncols ← ncols.toNat?
+    let rel ← parseRel rel
+    let segs ← (segs.splitOn "|").mapM parseSeg
+    let (c, rest) ← parseBCond cond
+    let wsp ← (match split with | "c" => some contentSplit | "e" => some noSplit | _ => none)
+    if !rest.isEmpty || rpf == 0 then none
+    else some (runRel wsp rel (List.range ncols) c segs (minMarks rpf minRows) rgs)
   | _ => none
 
 end SkipDrv
